@@ -126,6 +126,22 @@ fn alphabet(t: &Tiny, w: &World) -> Vec<Op> {
             }
         }
     }
+    // configuration changed under open orders (two of the markets): fee accounts moved by an executor,
+    // fee collection switched off / on again by a migration
+    if (t.name == "fees-half" || t.name == "precision-one") && !book.is_empty() {
+        if let Some(f) = &cfg.bid_fee {
+            let other = if f.account == "feeb" { "carol" } else { "feeb" };
+            ops.push(ex("exec1", vec![], json!({"modify_contract": {"bid_fee_rate": f.rate, "bid_fee_account": other}})));
+            ops.push(Op::Migrate { msg: json!({"bid_fee_rate": "", "bid_fee_account": ""}) });
+        } else if let Some(r) = t.bid_fee {
+            ops.push(Op::Migrate { msg: json!({"bid_fee_rate": r, "bid_fee_account": "feeb"}) });
+        }
+        if let Some(f) = &cfg.ask_fee {
+            if f.account == "feea" {
+                ops.push(Op::Migrate { msg: json!({"ask_fee_rate": f.rate, "ask_fee_account": "alice"}) });
+            }
+        }
+    }
     for b in book.bids.values() {
         let brem = b.rem_base().max(0) as u128;
         ops.push(ex(&b.owner, vec![], json!({"cancel_bid": {"id": b.id}})));
